@@ -135,13 +135,19 @@ def oneNameB (a n : String) (evs : List (Int × Op)) : Bool :=
   evs.all fun e => match e.2 with | .ptr a' n' _ _ => !(a' == a) || n' == n | _ => true
 
 def supersededB (h : Nat) (s : Link.Svc) (l2 : List Link.DlvE) (x : Link.DlvE) (e : Nat) (τ : Int) : Bool :=
-  (l2.any fun y => y.h == h && (Link.ptrOf s y.items).isSome && decide (y.t ≤ τ)) || decide (x.t + 1000 * (e : Int) ≤ τ)
+  (l2.any fun y => y.h == h && (Link.ptrOf s y.items).isSome && decide (y.t ≤ τ)) || decide (x.t + 1000 * (e : Int) ≤ τ + 999)
 
 def learnedB (a n : String) (e : Nat) (x : Link.DlvE) (later : Int → Bool) (pre0 evs : List (Int × Op)) : Bool :=
   let after := fun (l : List (Int × Op)) => l.all fun op => !(op.2.touches a) || later op.1
-  (tailsAny (fun op post => op == (x.t, Op.ptr a n e x.t) && after post) evs)
+  (tailsAny (fun op post =>
+        (match op.2 with
+          | .ptr a' n' e' cr => a' == a && n' == n && e' == e && cr == op.1 && decide (x.t - 999 ≤ cr) && decide (cr ≤ x.t)
+          | _ => false)
+        && after post) evs)
   || (tailsAny (fun op post =>
-        (match op.2 with | .ptr a' n' e' cr => a' == a && n' == n && e' == e && cr == x.t | _ => false)
+        (match op.2 with
+          | .ptr a' n' e' cr => a' == a && n' == n && e' == e && decide (x.t - 999 ≤ cr) && decide (cr ≤ x.t)
+          | _ => false)
         && (post.all fun o => !(o.2.touches a)) && after evs) pre0)
 
 structure BrowserEval where
@@ -186,7 +192,7 @@ def browserEval (tr : Link.Trace) (endT tb : Int) (b : Link.Br) (types : List St
         && decide (tb < x.t + 1000 * (e : Int)))
       || learnedB (aliasOf s) n e x (supersededB b.host s l2 x e) pre0 evs
     wireWithout := perPtr fun s x l2 e =>
-      os.all fun o => !(o.types.contains n && decide (x.t + 500 * (e : Int) ≤ o.t) && decide (o.t ≤ endT)
+      os.all fun o => !(o.types.contains n && decide (tb + 120 < o.t) && decide (x.t + 500 * (e : Int) ≤ o.t) && decide (o.t ≤ endT)
           && l2.all fun y => !(y.h == b.host && (Link.ptrOf s y.items).isSome) || decide (o.t < y.t))
         || decide (WireAskWithout tr b s o) }
 
@@ -240,18 +246,27 @@ theorem learned_of_B {a n : String} {e : Nat} {x : Link.DlvE} {later : Int → B
   simp only [learnedB, Bool.or_eq_true] at h
   rcases h with h | h
   · obtain ⟨pre, op, post, rfl, hp⟩ := tailsAny_spec _ _ h
-    simp only [Bool.and_eq_true, beq_iff_eq] at hp
-    obtain ⟨rfl, hpost⟩ := hp
-    exact Or.inl ⟨pre, post, rfl, hafter post hpost⟩
+    simp only [Bool.and_eq_true] at hp
+    obtain ⟨hop, hpost⟩ := hp
+    obtain ⟨t', o⟩ := op
+    cases o with
+    | ptr a' n' e' cr =>
+      simp only [Bool.and_eq_true, beq_iff_eq, decide_eq_true_eq] at hop
+      obtain ⟨⟨⟨⟨⟨rfl, rfl⟩, rfl⟩, rfl⟩, h1⟩, h2⟩ := hop
+      exact ⟨cr, h1, h2, Or.inl ⟨pre, post, rfl, hafter post hpost⟩⟩
+    | start _ => simp at hop
+    | cancel _ => simp at hop
+    | fire _ => simp at hop
+    | stop => simp at hop
   · obtain ⟨pre0a, op, pre0b, rfl, hp⟩ := tailsAny_spec _ _ h
     simp only [Bool.and_eq_true] at hp
     obtain ⟨⟨hop, hun⟩, hevs⟩ := hp
     obtain ⟨t', o⟩ := op
     cases o with
     | ptr a' n' e' cr =>
-      simp only [Bool.and_eq_true, beq_iff_eq] at hop
-      obtain ⟨⟨⟨rfl, rfl⟩, rfl⟩, rfl⟩ := hop
-      refine Or.inr ⟨pre0a, t', pre0b, rfl, ?_, hafter evs hevs⟩
+      simp only [Bool.and_eq_true, beq_iff_eq, decide_eq_true_eq] at hop
+      obtain ⟨⟨⟨⟨rfl, rfl⟩, rfl⟩, h1⟩, h2⟩ := hop
+      refine ⟨cr, h1, h2, Or.inr ⟨pre0a, t', pre0b, rfl, ?_, hafter evs hevs⟩⟩
       intro op hop'
       have := List.all_eq_true.mp hun op hop'
       simpa using this
@@ -263,6 +278,8 @@ theorem learned_of_B {a n : String} {e : Nat} {x : Link.DlvE} {later : Int → B
 /-- `Learned` is monotone in what it allows later -/
 theorem Learned.mono {a n : String} {e : Nat} {x : Link.DlvE} {P Q : Int → Prop} {pre0 evs : List (Int × Op)}
     (hPQ : ∀ τ, P τ → Q τ) (h : Learned a n e x P pre0 evs) : Learned a n e x Q pre0 evs := by
+  obtain ⟨cr, hc1, hc2, h⟩ := h
+  refine ⟨cr, hc1, hc2, ?_⟩
   rcases h with ⟨pre, post, h1, h2⟩ | ⟨pre0a, t', pre0b, h1, h2, h3⟩
   · exact Or.inl ⟨pre, post, h1, fun op hop ht => hPQ _ (h2 op hop ht)⟩
   · exact Or.inr ⟨pre0a, t', pre0b, h1, h2, fun op hop ht => hPQ _ (h3 op hop ht)⟩
@@ -342,15 +359,16 @@ theorem browserEval_sound_refresh (tr : Link.Trace) (endT tb : Int) (b : Link.Br
           simp [hc]
       · exact absurd halive hf
       · exact Learned.mono (fun τ hτ => superseded_of_B hτ) (learned_of_B hf)
-    · intro s x l1 l2 ttl full hty hd hxh hp httl o ho hn hlo hhi hl2
+    · intro s x l1 l2 ttl full hty hd hxh hp httl o ho hn hfirst hlo hhi hl2
       have hf := per (fun s x l2 e =>
-          outs.all fun o => !(o.types.contains n && decide (x.t + 500 * (e : Int) ≤ o.t) && decide (o.t ≤ endT)
+          outs.all fun o => !(o.types.contains n && decide (tb + 120 < o.t) && decide (x.t + 500 * (e : Int) ≤ o.t) && decide (o.t ≤ endT)
               && l2.all fun y => !(y.h == b.host && (Link.ptrOf s y.items).isSome) || decide (o.t < y.t))
             || decide (WireAskWithout tr b s o)) h8 s x l1 l2 ttl full hty hd hxh hp httl
       have ho' := List.all_eq_true.mp hf o ho
       simp only [Bool.or_eq_true, Bool.not_eq_true', Bool.and_eq_false_iff, decide_eq_false_iff_not, decide_eq_true_eq] at ho'
-      rcases ho' with (((ho' | ho') | ho') | ho') | ho'
+      rcases ho' with ((((ho' | ho') | ho') | ho') | ho') | ho'
       · simp [hn] at ho'
+      · exact absurd hfirst ho'
       · exact absurd hlo ho'
       · exact absurd hhi ho'
       · exfalso
